@@ -101,6 +101,8 @@ type Worker struct {
 	funcsSeen map[*ssa.Function]int64
 	assertQueries int
 	assertsSeen   int
+	ifConverted   int
+	uniq          map[string]ObjID
 	solLevels     []int
 	prevTaken     []int
 }
@@ -228,6 +230,7 @@ type Path struct {
 	assumes  int
 	sample   map[string]interface{}
 	levelCount []int
+	known    map[*Term]bool
 }
 
 func (p *Path) tc() *TermCtx { return p.wk.tc }
@@ -242,6 +245,13 @@ func (p *Path) note(f string, a ...interface{}) {
 
 // fork picks one of the mutually exclusive, jointly exhaustive conditions.
 func (p *Path) fork(conds []*Term, what string) int {
+	if len(p.known) > 0 {
+		cs := make([]*Term, len(conds))
+		for i, c := range conds {
+			cs[i] = p.simp(c)
+		}
+		conds = cs
+	}
 	// constant pruning
 	nonFalse := -1
 	cnt := 0
@@ -332,6 +342,7 @@ func (p *Path) assertPC(c *Term) {
 	if p.nofork {
 		return
 	}
+	p.learn(c, true)
 	lvl := len(p.taken)
 	for len(p.levelCount) <= lvl {
 		p.levelCount = append(p.levelCount, 0)
@@ -350,6 +361,59 @@ func (p *Path) assertPC(c *Term) {
 	}
 	wk.sol.Assert(c)
 	wk.solLevels[lvl]++
+}
+
+// learn records boolean atoms whose value is fixed by the path condition, so that later tests of the
+// same atom neither fork nor reach the solver.
+func (p *Path) learn(t *Term, val bool) {
+	if p.known == nil {
+		p.known = map[*Term]bool{}
+	}
+	switch t.Op {
+	case OpConst:
+		return
+	case OpNot:
+		p.learn(t.Args[0], !val)
+		return
+	case OpAnd:
+		if val {
+			p.learn(t.Args[0], true)
+			p.learn(t.Args[1], true)
+		}
+	case OpOr:
+		if !val {
+			p.learn(t.Args[0], false)
+			p.learn(t.Args[1], false)
+		}
+	}
+	p.known[t] = val
+}
+
+// simp replaces a condition by its known value when the path condition fixes it syntactically.
+func (p *Path) simp(t *Term) *Term {
+	if t.IsConst() || len(p.known) == 0 {
+		return t
+	}
+	if v, ok := p.known[t]; ok {
+		return p.tc().Bool(v)
+	}
+	switch t.Op {
+	case OpNot:
+		if v, ok := p.known[t.Args[0]]; ok {
+			return p.tc().Bool(!v)
+		}
+	case OpAnd:
+		a, b := p.simp(t.Args[0]), p.simp(t.Args[1])
+		if a != t.Args[0] || b != t.Args[1] {
+			return p.tc().And(a, b)
+		}
+	case OpOr:
+		a, b := p.simp(t.Args[0]), p.simp(t.Args[1])
+		if a != t.Args[0] || b != t.Args[1] {
+			return p.tc().Or(a, b)
+		}
+	}
+	return t
 }
 
 // alignSolver pops the solver back to the scopes shared with the previous path of this worker.
@@ -512,6 +576,7 @@ func (p *Path) violationNow(kind, msg string) {
 
 // check asserts cond; a satisfiable negation is a violation. Execution continues on the passing side.
 func (p *Path) check(cond *Term, kind, msg string) {
+	cond = p.simp(cond)
 	if cond.IsConst() {
 		if cond.Val != 0 {
 			return
